@@ -720,9 +720,13 @@ class ModProxy(types.ModuleType):
         return w
 
 
+NP_OVERRIDES = {}   # property modules may register further `np.<name>` replacements here (name -> callable)
+
+
 def make_np_proxy(objzeros=False, rng=None):
     ov = {"array": _mk_array, "asarray": _mk_asarray, "sqrt": _sym_sqrt, "abs": _sym_abs, "absolute": _sym_abs,
           "conj": _sym_conj, "conjugate": _sym_conj, "log2": _sym_log2}
+    ov.update(NP_OVERRIDES)
     if objzeros:
         ov.update({"zeros": _obj_filled(0), "empty": _obj_filled(0), "ones": _obj_filled(1)})
         ov["ndarray"] = _NdarrayMeta
